@@ -135,7 +135,7 @@ def parseFault (j : Json) : R (Option Fault) :=
       match ← arr e with
       | [c, b] => return (unhex (← c.getStr?), ← b.getBool?)
       | _ => throw "bad after-write")
-    return some ⟨← fldNat j "idx", unhex (← fldStr j "part"), after⟩
+    return some ⟨← fldNat j "idx", unhex (← fldStr j "part"), after, ← fldBool j "cleanup"⟩
 
 def parseParam (j : Json) : R (Param V) := do
   return { name := ← fldStr j "name", persistent := ← fldBool j "persistent", auto := ← fldBool j "auto",
